@@ -3,7 +3,6 @@ package grpcbridge
 import (
 	"log/slog"
 	"net/http"
-	"slices"
 	"strings"
 
 	"github.com/renbou/grpcbridge/bridgelog"
@@ -97,9 +96,11 @@ func NewWebBridge(router Router, opts ...BridgeOption) *WebBridge {
 //  3. HTTP gRPC-Web (Content-Type: application/grpc-web) requests are handled by [webbridge.GRPCWebBridge].
 //  4. All other requests are handled by [webbridge.TranscodedHTTPBridge].
 func (b *WebBridge) ServeHTTP(w http.ResponseWriter, r *http.Request) {
-	// Case-insensitive comparison as specified in the RFC https://datatracker.ietf.org/doc/html/rfc6455#section-4.2.1.
-	if ascii.EqualFold(r.Header.Get("Connection"), "upgrade") && ascii.EqualFold(r.Header.Get("Upgrade"), "websocket") {
-		if slices.Contains(r.Header.Values("Sec-WebSocket-Protocol"), "grpc-websockets") {
+	// Connection, Upgrade and Sec-WebSocket-Protocol are comma-separated token lists which may be split across
+	// multiple header lines, with case-insensitive tokens: https://datatracker.ietf.org/doc/html/rfc6455#section-4.2.1.
+	// Browsers such as Firefox send "Connection: keep-alive, Upgrade".
+	if headerHasToken(r.Header, "Connection", "upgrade") && headerHasToken(r.Header, "Upgrade", "websocket") {
+		if headerHasToken(r.Header, "Sec-WebSocket-Protocol", "grpc-websockets") {
 			b.gRPCWebSocketBridge.ServeHTTP(w, r)
 		} else {
 			b.transcodedWebSocketBridge.ServeHTTP(w, r)
@@ -107,12 +108,33 @@ func (b *WebBridge) ServeHTTP(w http.ResponseWriter, r *http.Request) {
 		return
 	}
 
-	if strings.HasPrefix(r.Header.Get("Content-Type"), "application/grpc-web") {
+	if isGRPCWebContentType(r.Header.Get("Content-Type")) {
 		b.gRPCWebHTTPBridge.ServeHTTP(w, r)
 		return
 	}
 
 	b.transcodedHTTPBridge.ServeHTTP(w, r)
+}
+
+// headerHasToken reports whether any element of the comma-separated list formed by all the lines
+// of the named header equals token, ignoring ASCII case and optional whitespace around elements.
+func headerHasToken(h http.Header, name, token string) bool {
+	for _, line := range h.Values(name) {
+		for _, elem := range strings.Split(line, ",") {
+			if ascii.EqualFold(strings.Trim(elem, " \t"), token) {
+				return true
+			}
+		}
+	}
+
+	return false
+}
+
+// isGRPCWebContentType reports whether the media type begins with application/grpc-web,
+// media types being case-insensitive as per https://datatracker.ietf.org/doc/html/rfc7231#section-3.1.1.1.
+func isGRPCWebContentType(ct string) bool {
+	const grpcWeb = "application/grpc-web"
+	return len(ct) >= len(grpcWeb) && ascii.EqualFold(ct[:len(grpcWeb)], grpcWeb)
 }
 
 // WithMarshalers allows using custom marshalers for transcoding-based handlers,
